@@ -129,6 +129,40 @@ def check(rep, ctx):
                                       instance=construct, **W.codec_loc({"fn": fn, "line": wd.get("_line", 0)}))
                     if not [i for i in issues if i[0] in ("T-float64", "T-trunc", "T-epoch")] and q is not None:
                         rep.check(R_D, True, construct=fn, stmt=timeflow.show(wd["conv"]), instance=construct)
+    # exact consumption: chunked reads take what is missing, chunked writes write each byte once
+    from .. import scan as _scan3
+    R_XC = rep.rule("C01-b-chunks", "a value read or written in chunks is consumed / emitted exactly once: no fixed-size chunk reads that are cut "
+                    "back or run 'until enough', no read(max(...)), no payload slice x[-r:] with a remainder that may be zero", floor=0,
+                    necessary_because="the decoder must consume exactly the bytes the encoder wrote: a last chunk of 64 KiB swallows the next field, "
+                                      "a tail slice view[-0:] writes the whole value a second time")
+    RMODS_ = ["kio.serial.readers", "kio.serial._parse", "kio.records.readers"]
+    for o in _scan3.fixed_chunk_reads(ctx, RMODS_) + _scan3.over_reads(ctx, RMODS_):
+        rep.check(R_XC, False, construct=o["function"], stmt=o["stmt"],
+                  message=f"`{o['stmt']}` asks for {o['size']} bytes whatever is still missing: bytes of what follows the value are consumed with it",
+                  file=o["file"], line=o["line"])
+    for o in _scan3.minus_zero_slices(ctx, ["kio.serial.writers", "kio.serial._serialize", "kio.records.writers"]):
+        rep.check(R_XC, False, construct=o["function"], stmt=o["stmt"],
+                  message=f"`{o['stmt']}`: {o['name']} is a remainder and may be 0, and x[-0:] is all of x -- the value is written twice while its "
+                          f"length prefix announces it once", file=o["file"], line=o["line"])
+    rep.count(R_XC, 1, instance="scan")
+    # the varints every length prefix and tag goes through: reader(writer(v)) = v, decided at bit level (as in C11)
+    from ..plans import analyse_primitives
+    from .. import varint as _varint
+    R_VR = rep.rule("C01-varint", "the unsigned varint reader returns what the varint writer wrote, for every value (bit-vector proof over the "
+                    "recognised reader and writer atoms)", floor=2,
+                    necessary_because="a reader that rejects an all-zero middle group cannot read back 16384 = 80 80 01: a compact string of 16383 bytes does not decode")
+    P_ = ctx.plans
+    analyse_primitives(P_)
+    ratoms_ = {(a["fn"], a["max_bytes"]): a for a in P_.A.atoms.values() if a and a["kind"] == "varint"}
+    watoms_ = [a for a in P_.A.atoms.values() if a and a["kind"] == "wvarint"]
+    if not ratoms_ or not watoms_:
+        rep.limit("no varint reader / writer atom recognised in kio.serial.readers / writers")
+    else:
+        w_ = max(watoms_, key=lambda a: a["max_bytes"])
+        for (fn_, mx_), a_ in sorted(ratoms_.items()):
+            pr_ = _varint.check_varint_reader(a_) + _varint.check_roundtrip(a_, w_)
+            rep.check(R_VR, not pr_, construct=fn_, stmt=f"varint reader ({mx_} bytes) after the varint writer", message="; ".join(pr_[:3]),
+                      file="src/kio/serial/readers.py", line=a_["line"], instance=f"{fn_}|{mx_}")
     W.finish(rep)
     rep.extra.update(classes=len(S.classes), engine_stats=W.bundle.get("stats"))
     rep.trusted_base += ["struct format semantics", "IEEE-754 binary64: integers above 2**53 are not all representable"]
